@@ -163,9 +163,17 @@ structure Cfg where
       before taking the primitive shortcut, and `declare_type` does not look
       for a registered type of the same name -/
   primRecursive : Bool
+  /-- an impl block's scope is looked up by the type's *name in the scope where
+      the impl block stands* (`get_scope_of(scope, ty.name.ident)`) instead of
+      in the scope where the type was declared (`get_scope_of(ty.name.scope,
+      ty.name.ident)`).  Never so on the pinned or the current tree; the switch
+      exists so that the decision is a parameter the translator reads from the
+      source (`Generated/RegPasses.lean`, seeded change C18-1). -/
+  implAtSite : Bool := false
+  deriving DecidableEq, Repr
 
-def Cfg.pinned : Cfg := ⟨true, true, true, true⟩
-def Cfg.fixed : Cfg := ⟨false, false, false, false⟩
+def Cfg.pinned : Cfg := ⟨true, true, true, true, false⟩
+def Cfg.fixed : Cfg := ⟨false, false, false, false, false⟩
 
 /-! ## check_name -/
 
@@ -321,6 +329,20 @@ def implScope (ty : TyId) (st : St) : Res ScopeId :=
     | none => .panic .implScope
     | some s => .ok s
 
+/-- the scope of an impl block that stands in `site` (see `Cfg.implAtSite`) -/
+def implScopeC (cfg : Cfg) (site : ScopeId) (ty : TyId) (st : St) : Res ScopeId :=
+  if cfg.implAtSite then
+    match st.types ty with
+    | none => .err .unregistered
+    | some nm =>
+      match st.getScopeOf site nm.ident with
+      | none => .panic .implScope
+      | some s => .ok s
+  else implScope ty st
+
+@[simp] theorem implScopeC_fixed (site : ScopeId) (ty : TyId) (st : St) :
+    implScopeC Cfg.fixed site ty st = implScope ty st := rfl
+
 /-- the path walk of `declare_import` -/
 def walkPath (start : ScopeId) (st : St) : ScopeId → List Name → Res ScopeId
   | cur, [] => .ok cur
@@ -407,13 +429,13 @@ def passLeaf (p : Pass) (scope : ScopeId) (i : Item) (st : St) : Res St :=
   | .types, .type n id => declareType cfg scope n id st
   | .functions, .function n ps r tag => declareFunction cfg lex scope n ps r tag false st
   | .functions, .impl ty ch =>
-    match implScope ty st with
+    match implScopeC cfg scope ty st with
     | .ok s => declMethods cfg lex s ch st
     | .err e => .err e
     | .panic s => .panic s
   | .constants, .constant n ty tag => declareConstant scope n ty tag st
   | .constants, .impl ty ch =>
-    match implScope ty st with
+    match implScopeC cfg scope ty st with
     | .ok s => declImplConstants s ch st
     | .err e => .err e
     | .panic s => .panic s
